@@ -13,7 +13,7 @@ Definition is_yield (i : instr) : Prop := exists h d, i = IYieldH h d.
 Record ieff (st st' : wstate) (t : tid) (i : instr) (r : list instr) (ev : list wevent) : Prop := {
   e_tf : tframe st st' t;
   e_new : exists new, tcont (thr st' t) = new ++ r /\ (forall j, In j new -> ~ is_yield j) /\
-                      (forall y w, ~ In (y, HPlain w) (pushes new)) /\ (dropw_ok i -> forall j, In j new -> dropw_ok j);
+                      (forall y h, In (y, h) (pushes new) -> exists c, h = HChan c) /\ (dropw_ok i -> forall j, In j new -> dropw_ok j);
   e_sl : sl st' = sl st /\ wused st' = wused st /\ nfill st' = nfill st /\ wreg st' = wreg st;
   e_pipe : forall y, In y (pipeline st') <-> In y (pipeline st) \/ exists m bm h, i = ILock m (LPush y bm h);
   e_tret : (forall m v, i <> IUnlock m (URet v)) -> (forall m c x, i <> IUnlock m (UChPush c x)) ->
@@ -23,7 +23,7 @@ Record ieff (st st' : wstate) (t : tid) (i : instr) (r : list instr) (ev : list 
 
 Lemma ieff_gen : forall st st' t i r new ev,
   tframe st st' t -> tcont (thr st t) = i :: r -> tcont (thr st' t) = new ++ r ->
-  (forall j, In j new -> ~ is_yield j) -> (forall y w, ~ In (y, HPlain w) (pushes new)) ->
+  (forall j, In j new -> ~ is_yield j) -> (forall y h, In (y, h) (pushes new) -> exists c, h = HChan c) ->
   (dropw_ok i -> forall j, In j new -> dropw_ok j) ->
   sl st' = sl st -> wused st' = wused st -> nfill st' = nfill st -> wreg st' = wreg st ->
   (forall m y bm h, i <> ILock m (LPush y bm h)) ->
@@ -46,7 +46,7 @@ Qed.
 Ltac ie_noy := let j := fresh "j" in let Hj := fresh "Hj" in let E := fresh "E" in
   intros j Hj [? [? E]]; cbn in Hj; repeat (destruct Hj as [Hj|Hj]; [subst j; discriminate E|]); contradiction.
 Ltac ie_nop := let Hj := fresh "Hj" in
-  intros ? ? Hj; cbn in Hj; repeat (destruct Hj as [Hj|Hj]; [discriminate Hj|]); contradiction.
+  intros ? ? Hj; cbn in Hj; repeat (destruct Hj as [Hj|Hj]; [first [discriminate Hj|inversion Hj; eexists; reflexivity]|]); contradiction.
 Ltac ie_drop := let Hd := fresh "Hd" in let j := fresh "j" in let Hj := fresh "Hj" in
   intros Hd j Hj; cbn in Hd; try contradiction; cbn in Hj; repeat (destruct Hj as [<-|Hj]); try contradiction; exact Logic.I.
 Ltac ie_noc := let e := fresh "e" in let He := fresh "He" in
@@ -363,7 +363,7 @@ Proof.
   assert (TpNew : forall x w, In (x, HPlain w) (tpushes (thr st' t)) -> In (x, HPlain w) (tpushes (thr st t))).
   { intros x w H. unfold tpushes in *. rewrite Hc', Fin, pushes_app in H. rewrite Hc, pushes_cons.
     apply in_app_or in H. destruct H as [H|H]; [|apply in_or_app; right; exact H].
-    apply in_app_or in H. destruct H as [H|H]; [exfalso; exact (Hnp x w H)|]. apply in_or_app. left. apply in_or_app. right. exact H. }
+    apply in_app_or in H. destruct H as [H|H]; [exfalso; destruct (Hnp x _ H) as [c0 E0]; discriminate E0|]. apply in_or_app. left. apply in_or_app. right. exact H. }
   assert (Claim : forall x h m0 bm, i = ILock m0 (LPush x bm h) -> slab_get (sl st) x = Some h).
   { intros x h m0 bm E. apply (sl_claim st S). right; right. exists t. rewrite (tpushes_cons_cont _ _ _ Hc), E. left. reflexivity. }
   assert (Yr : forall w d, In (IYieldH (HPlain w) d) (tcont (thr st' main)) ->
